@@ -6,6 +6,7 @@ import Bpp.BatchFlow
 import Bpp.CodecThm
 import Bpp.CtorsThm
 import Model.Transcript
+import Bpp.GensThm
 /-! # Property theorems
 
 Only the property statements live here, one block per C-id, each about the **executable** model functions of
@@ -427,5 +428,50 @@ theorem C08_weight_input (ctx : List Event) (x x' : Pub) (hx : x.ok) (hx' : x'.o
     (h : beforeWeight ctx x A lrs a1 b r1 s1 d1 = beforeWeight ctx x' A' lrs' a1' b' r1' s1' d1') :
     x = x' ∧ A = A' ∧ lrs = lrs' ∧ a1 = a1' ∧ b = b' ∧ r1 = r1' ∧ s1 = s1' ∧ d1 = d1' :=
   beforeWeight_inj_data ctx x x' hx hx' A A' lrs lrs' a1 b a1' b' r1 s1 r1' s1' d1 d1' hd h
+
+/-! ## C11 Generators / C12 capacity independence (model `Model.Gens`; hashes are parameters) -/
+
+open Model.Gens in
+/-- **C11 (labels).** (kind, party < 2³², index) ↦ (SHAKE input, byte offset) is injective. The label has no capacity
+    argument (C12). -/
+theorem C11_chain_inj (k k' : Kind) (p p' i i' : ℕ) (hp : p < 2 ^ 32) (hp' : p' < 2 ^ 32)
+    (h : chainLabel k p = chainLabel k' p' ∧ chainOffset i = chainOffset i') : k = k' ∧ p = p' ∧ i = i' :=
+  GensThm.chain_inj k k' p p' i i' hp hp' h
+
+open Model.Gens in
+theorem C11_chain_ne_pedersen (k : Kind) (p j : ℕ) : chainLabel k p ≠ pedersenLabel j := GensThm.chain_ne_pedersen k p j
+
+open Model.Gens in
+theorem C11_pedersen_inj : ∀ j < 6, ∀ j' < 6, pedersenLabel j = pedersenLabel j' → j = j' := GensThm.pedersen_inj
+
+open Model.Gens in
+/-- **C11 (table).** Position `2i` / `2i+1` of the precomputed table is the i-th `G` / `H` generator in party-major
+    order. -/
+theorem C11_table_positions (bits cap i : ℕ) (hi : i < cap * bits) :
+    (tableOrder bits cap)[2 * i]? = (aggIter .G bits cap)[i]? ∧ (tableOrder bits cap)[2 * i + 1]? = (aggIter .H bits cap)[i]? :=
+  GensThm.interleave_get _ _ (by rw [GensThm.aggIter_length, GensThm.aggIter_length]) i (by rw [GensThm.aggIter_length]; exact hi)
+
+open Model.Gens in
+theorem C11_table_length (bits cap : ℕ) : (tableOrder bits cap).length = 2 * bits * cap := GensThm.tableOrder_length bits cap
+
+open Model.Gens in
+/-- **C12 (same generators whatever the capacity).** -/
+theorem C12_aggIter_prefix (k : Kind) (n m cap : ℕ) (h : m ≤ cap) : aggIter k n m <+: aggIter k n cap :=
+  GensThm.aggIter_prefix k n m cap h
+
+/-- **C12 (padding is neutral).** -/
+theorem C12_padding_neutral (N pad : ℕ) (a : ℕ → F) (G : ℕ → M) :
+    Model.dot (N + pad) (fun i => if i < N then a i else 0) G = Model.dot N a G := GensThm.dot_padding N pad a G
+
+open Model.Gens in
+/-- **C12/C16 (padding fills the table).** -/
+theorem C12_padding_fills (bits m cap p : ℕ) (h : padding bits m cap = some p) :
+    2 * (bits * m) + p = (tableOrder bits cap).length := GensThm.padding_fills bits m cap p h
+
+/-- **C12 (verifier sees a prefix only).** -/
+theorem C12_verifier_prefix (I : RangeInst F M) (G' H' : ℕ → M) (π : ProofM F M) (y z : F) (es : List F) (e w : F)
+    (hG : ∀ i < I.n * I.m, I.G i = G' i) (hH : ∀ i < I.n * I.m, I.H i = H' i) :
+    Model.codeContribution { I with G := G', H := H' } π y z es e w = Model.codeContribution I π y z es e w :=
+  GensThm.codeContribution_prefix I G' H' π y z es e w hG hH
 
 end Bpp
